@@ -73,7 +73,10 @@ def body(chk):
             for p in paths:
                 i = matched(p, handles)
                 if i is None:
-                    continue        # unknown handle: C16
+                    if p['terminal'] is None and p['error'] is None:
+                        # returned normally without having looked the handle up: whatever H is, it was not made the target
+                        bad.append(pc_term(p['pc']))
+                    continue        # unknown handle ending in the fatal error: C16
                 seen.add(i)
                 ptr1, ents1 = R.snapshot(w, p['st'], scalar)
                 wr = ext_writes(p, st)
@@ -85,8 +88,11 @@ def body(chk):
             rs = replay_script(chk, scalar, ['masa_init<Scalar>("a","euler_2d"); masa_init<Scalar>("b","euler_2d"); masa_init<Scalar>("c","heateq_1d_unsteady_var");',
                                              'masa_select_mms<Scalar>("a"); masa_set_param<Scalar>("L",(Scalar)3.5); masa_select_mms<Scalar>("b"); masa_set_param<Scalar>("L",(Scalar)4.5);',
                                              'masa_select_mms<Scalar>("a"); printf("\\nR a %d\\n", masa_get_param<Scalar>("L")==(Scalar)3.5); std::string n; masa_select_mms<Scalar>("c"); masa_get_name<Scalar>(&n); printf("R c %s\\n", n.c_str());',
-                                             'masa_select_mms<Scalar>("b"); printf("R b %d\\n", masa_get_param<Scalar>("L")==(Scalar)4.5);'],
-                               ['R a 1', 'R c heateq_1d_unsteady_var', 'R b 1'], 'select/set/get over three handles')
+                                             'masa_select_mms<Scalar>("b"); printf("R b %d\\n", masa_get_param<Scalar>("L")==(Scalar)4.5);',
+                                             # a handle that is named exactly like its solution type
+                                             'masa_init<Scalar>("euler_2d","euler_2d"); masa_set_param<Scalar>("L",(Scalar)6.5); masa_select_mms<Scalar>("b"); masa_select_mms<Scalar>("euler_2d");',
+                                             'printf("R named_like_its_solution %d\\n", masa_get_param<Scalar>("L")==(Scalar)6.5);'],
+                               ['R a 1', 'R c heateq_1d_unsteady_var', 'R b 1', 'R named_like_its_solution 1'], 'select/set/get over handles (one named like its solution type)')
             chk.paths_clean('select%s:selects-map[H]-and-nothing-else' % tag, bad, family='select', replay=rs,
                             sample=dict(obligation='select_mms(H)', paths=len(paths), handles=[h.p for h in handles]))
             # ---- parameter operations store only inside the selected object
